@@ -18,7 +18,7 @@ var DefaultPatches = []Patch{
 	{
 		File:    "core/stores/redis/redisclientmanager.go",
 		Old:     "MinIdleConns: idleConns,",
-		New:     "MinIdleConns: 0 * idleConns,",
-		Comment: "go-redis pre-dials idle connections inside NewClient, before go-zero attaches the dial hook; a real dial must never happen inside a bubble",
+		New:     "MinIdleConns: 0 * idleConns, PoolSize: 160,",
+		Comment: "go-redis pre-dials idle connections inside NewClient, before go-zero attaches the dial hook; a real dial must never happen inside a bubble; the pool size (go-redis default 10*GOMAXPROCS, which also is the number of dial errors after which go-redis fails fast) is pinned so that runs do not depend on GOMAXPROCS",
 	},
 }
